@@ -11,6 +11,7 @@ from . import models as M
 from .models import BASE_MODELS, P, deref, as_str, hex_cases, fork_cases
 from .models2 import MODELS2
 from .smt import valid_char, in_ranges, table_tree, eq_alts, decide, Verdict
+from . import regexsem as RS
 
 
 class Obligation:
@@ -79,7 +80,7 @@ class Ctx:
         return self.known_counts.get(qid.split('[')[0], 0) + 8 + self.extra_cap
 
     def new_exec(self, extra_models=()):
-        return Exec(self.mir, list(extra_models) + MODELS2 + BASE_MODELS)
+        return Exec(self.mir, list(extra_models) + MODELS2 + BASE_MODELS, max_steps=getattr(self, 'max_steps', 2_000_000))
 
     def finish(self, ob, ex, t0):
         ob.exec_s = time.time() - t0
@@ -707,10 +708,10 @@ def make_gc_models(ctx):
 
     def m_is_mark(ex, st, fr, callee, a, depth):
         """table stub: unic-ucd-category GeneralCategory::of(c).is_mark() dumped by running the crate"""
-        return in_ranges(deref(st, a[0]).p[0], ctx.oracle['gc_mark'])
+        return ex.in_table(st, deref(st, a[0]).p[0], ctx.oracle['gc_mark'])
 
     def m_is_other(ex, st, fr, callee, a, depth):
-        return in_ranges(deref(st, a[0]).p[0], ctx.oracle['gc_other'])
+        return ex.in_table(st, deref(st, a[0]).p[0], ctx.oracle['gc_other'])
     return [(P(r'^GeneralCategory::of$'), m_gc_of), (P(r'^GeneralCategory::is_mark$'), m_is_mark),
             (P(r'^GeneralCategory::is_other$'), m_is_other)]
 
@@ -2773,10 +2774,11 @@ def q02t(ctx, lens=(2, 2), with_empty=False, domain='letters', settings=None):
         if k not in names:
             raise Inconclusive('setting %s is not supported by Q02t' % k)
         off[names[k]] = z3.BoolVal(bool(val))
-    if settings.get('no_start_anchor') and settings.get('no_end_anchor'):
-        raise Inconclusive('both anchors disabled: RegExp::from then compiles the candidate with the regex engine (not modelled)')
+    if settings.get('no_end_anchor') and with_empty:
+        raise Inconclusive('end anchor disabled with an empty test case: the self-check of RegExp::from then depends on the empty-match rules of find_iter (not modelled)')
     cfgv = config_value(ctx, off)
-    ex = ctx.new_exec([(P(r'^<str as UnicodeSegmentation>::graphemes$'), m_graphemes_per_letter)] + make_gc_models(ctx))
+    ex = ctx.new_exec([(P(r'^<str as UnicodeSegmentation>::graphemes$'), m_graphemes_per_letter)] + make_regex_search_models(ctx) + make_gc_models(ctx) +
+                      make_regex_models(ctx, lambda x: orbit_rep(ctx, x)))
     st = State(pc=list(assume))
     cfg = st.ref(cfgv)
     inputs = ([[]] if with_empty else []) + cases
@@ -2808,7 +2810,12 @@ def q02t(ctx, lens=(2, 2), with_empty=False, domain='letters', settings=None):
                 items = strip_verbose_whitespace(items[len(head):])
             txt = ''.join(chr(concrete(x)) if concrete(x) is not None else 'x' for x in items)
             # group kinds: with capturing groups every group is capturing, without it none is
-            opens = [i for i in range(len(txt)) if txt[i] == '(' and (i == 0 or txt[i - 1] != '\\' or (i > 1 and txt[i - 2] == '\\'))]
+            def unescaped(i):
+                k = 0
+                while i - 1 - k >= 0 and txt[i - 1 - k] == '\\':
+                    k += 1
+                return k % 2 == 0
+            opens = [i for i in range(len(txt)) if txt[i] == '(' and unescaped(i)]
             noncap = [i for i in opens if txt[i:i + 3] == '(?:']
             if (settings.get('capture') and noncap) or (not settings.get('capture') and len(noncap) != len(opens)):
                 bads.append(z3.And(*o2.st.pc))
@@ -2818,6 +2825,8 @@ def q02t(ctx, lens=(2, 2), with_empty=False, domain='letters', settings=None):
                 bads.append(z3.And(*o2.st.pc))
                 continue
             bads.append(z3.And(*o2.st.pc, z3.Not(set_eq(inputs, words))))
+            if getattr(ctx, 'debug_paths', None) is not None:
+                ctx.debug_paths.append((list(o2.st.pc), items, words))
     ctx.finish(ob, ex, t0)
     ob.paths = npaths
     if len(ob.classes_seen) > 40:
@@ -2835,6 +2844,555 @@ def q02t(ctx, lens=(2, 2), with_empty=False, domain='letters', settings=None):
     ob.verdict = decide(ob.qid, assume + ob.defs, z3.Or(*bads) if bads else z3.BoolVal(False), allv, all_sat=True,
                         max_models=ctx.cap('Q02t'), second=ctx.second, workdir=ctx.workdir,
                         second_timeout_s=getattr(ctx, 'second_timeout', 60), blocker=blocker)
+    return ob
+
+
+# =========================================================================== Q08s  search clause: leftmost-first search returns the whole test case
+def regex_words(ex, st, re_, oracle):
+    """the pattern text held by a Regex value -> (words in leftmost-first priority order, start anchored, end anchored)"""
+    if not (isinstance(re_, Opaque) and re_.tag == 'regex'):
+        raise Inconclusive('regex operation on %r' % (re_,))
+    pat = list(re_.p[0])
+    return pattern_words(ex, st, pat, oracle)
+
+
+def pattern_words(ex, st, pat, oracle):
+    P_ = PatternParser(ex, st, pat, oracle)
+    start = end = False
+    if P_.at('^'):
+        P_.i += 1
+        start = True
+    ast = RS.parse_ast(P_)
+    if P_.at('$') and P_.i == len(pat) - 1:
+        P_.i += 1
+        end = True
+    if P_.i != len(pat):
+        raise Inconclusive('pattern text not fully parsed at position %d' % P_.i)
+    return RS.ordered_words(ast), start, end
+
+
+def byte_offsets(text):
+    off = [z3.BitVecVal(0, 64)]
+    for x in text:
+        off.append(z3.simplify(off[-1] + M.utf8_len(x)))
+    return off
+
+
+def make_regex_search_models(ctx):
+    """Regex::find_iter(..).count(), Regex::find, Match::start/end and <[T]>::rotate_right for the self-check of RegExp::from:
+    the pattern text is parsed (syntax subset grex emits) and searched with leftmost-first semantics (mirsym/regexsem.py)"""
+    def m_find_iter(ex, st, fr, callee, a, depth):
+        return Opaque('matches', deref(st, a[0]), tuple(as_str(st, a[1]).items))
+
+    def m_matches_count(ex, st, fr, callee, a, depth):
+        mt = a[0] if isinstance(a[0], Opaque) else deref(st, a[0])
+        words, sa, ea = regex_words(ex, st, mt.p[0], ctx.oracle)
+        if sa or ea:
+            raise Inconclusive('find_iter on an anchored pattern')
+        return RS.count_matches(words, list(mt.p[1]), ctx.oracle)
+
+    def m_regex_find(ex, st, fr, callee, a, depth):
+        text = list(as_str(st, a[1]).items)
+        words, sa, ea = regex_words(ex, st, deref(st, a[0]), ctx.oracle)
+        if sa or ea:
+            raise Inconclusive('find on an anchored pattern')
+        found, s_, e_ = RS.find_terms(words, text, ctx.oracle, byte_offsets(text))
+        outs = []
+        for s2, t in ex.branch(st, found):
+            outs.append((s2, EnumV('Option', 'Some', 1, (TupV([s_, e_], ['start', 'end'], 'Match'),)) if t else EnumV('Option', 'None', 0, ())))
+        return outs
+
+    def m_match_start(ex, st, fr, callee, a, depth):
+        return deref(st, a[0]).get(0)
+
+    def m_match_end(ex, st, fr, callee, a, depth):
+        return deref(st, a[0]).get(1)
+
+    def m_regex_to_string(ex, st, fr, callee, a, depth):
+        re_ = deref(st, a[0])
+        if not (isinstance(re_, Opaque) and re_.tag == 'regex'):
+            raise Inconclusive('to_string on %r' % (re_,))
+        return SymStr(re_.p[0])
+
+    COLOUR = [ord(ch) for ch in '\x1b\\[(?:\\d+;\\d+|0)m']
+
+    def m_replace_all(ex, st, fr, callee, a, depth):
+        """Regex::replace_all(text, "") for the one pattern grex uses it with, ESC\\[(?:\\d+;\\d+|0)m, on a text whose ESC, '[', digits, ';'
+        and 'm' inside colour codes are concrete characters (symbolic characters are payload)"""
+        re_ = deref(st, a[0])
+        if not (isinstance(re_, Opaque) and re_.tag == 'regex') or cps(re_.p[0]) != COLOUR:
+            raise Inconclusive('replace_all with a pattern other than the colour-code pattern: %r' % (re_,))
+        if as_str(st, a[2]).items:
+            raise Inconclusive('replace_all with a non-empty replacement')
+        items = list(as_str(st, a[1]).items)
+        cs_ = [concrete(x) for x in items]
+        isd = lambda k: k < len(items) and cs_[k] is not None and 0x30 <= cs_[k] <= 0x39
+        out, i = [], 0
+        while i < len(items):
+            if cs_[i] is None:
+                if not ex.must(st, items[i] != BV(0x1b, 32)):
+                    raise Inconclusive('a symbolic character of the text may be ESC')
+            if cs_[i] == 0x1b and i + 1 < len(items) and cs_[i + 1] == ord('['):
+                j = i + 2
+                k = j
+                while isd(k):
+                    k += 1
+                end = None
+                sym_inside = k < len(items) and cs_[k] is None      # the scan stopped at a symbolic character
+                if k > j and k < len(items) and cs_[k] == ord(';'):
+                    k2 = k + 1
+                    while isd(k2):
+                        k2 += 1
+                    sym_inside = k2 < len(items) and cs_[k2] is None
+                    if k2 > k + 1 and k2 < len(items) and cs_[k2] == ord('m'):
+                        end = k2 + 1
+                if end is None and j + 1 < len(items) and cs_[j] == 0x30 and cs_[j + 1] == ord('m'):
+                    end = j + 2
+                if end is None and sym_inside:
+                    raise Inconclusive('symbolic character inside a possible colour code')
+                if end is not None:
+                    i = end
+                    continue
+            out.append(items[i])
+            i += 1
+        return SymStr(out)
+
+    def m_rotate_right(ex, st, fr, callee, a, depth):
+        r = M._list_ref(st, a[0])
+        items = list(st.load(r).items)
+        k = concrete(a[1])
+        if k is None:
+            raise Inconclusive('rotate_right by a symbolic amount')
+        if items:
+            k %= len(items)
+            st.store(r, ListV(items[len(items) - k:] + items[:len(items) - k]))
+        return UNIT
+    return [(P(r'^(regex::)?Regex::find_iter$'), m_find_iter), (P(r"^<(regex::)?Matches<'_, '_> as Iterator>::count$"), m_matches_count),
+            (P(r'^(regex::)?Regex::find$'), m_regex_find), (P(r"^(regex::)?Match::<'_>::start$"), m_match_start),
+            (P(r"^(regex::)?Match::<'_>::end$"), m_match_end), (P(r'^core::slice::<impl \[.*\]>::rotate_right$'), m_rotate_right),
+            (P(r'^<(regex::)?Regex as ToString>::to_string$'), m_regex_to_string), (P(r'^(regex::)?Regex::replace_all::<&str>$'), m_replace_all),
+            (P(r"^<Cow<'_, str> as Deref>::deref$"), M.m_string_deref)]
+
+
+@guarded
+def q08s(ctx, lens=(2, 1), settings=None, domain='letters'):
+    """Q08s: with an anchor disabled, a leftmost-first search of every test case with the printed pattern returns the whole test case"""
+    settings = dict(settings or {})
+    stag = ''.join('[%s]' % k for k in sorted(settings) if settings[k])
+    ob = Obligation('Q08s[%s]%s' % (','.join(map(str, lens)), stag), q08s.__doc__)
+    ob.domain = ('%d test cases of %s letters a..z (every equality pattern); settings: %s; RegExp::from (with its self-check against the '
+                 'regex engine, modelled by the leftmost-first matcher) and Display for RegExp from MIR' % (
+                     len(lens), '/'.join(map(str, lens)), ', '.join(k for k in sorted(settings) if settings[k])))
+    ob.bound = 'exactly these lengths'
+    cases = [[z3.BitVec('s%d_%d' % (i, j), 32) for j in range(n)] for i, n in enumerate(lens)]
+    allv = [v for c in cases for v in c]
+    assume = [z3.And(z3.UGE(v, BV(0x61, 32)), z3.ULE(v, BV(0x7A, 32))) for v in allv]
+    fields = ctx.mir.structs.get('RegExpConfig')
+    off = {k: (BV(1, 32) if k.startswith('minimum_') else z3.BoolVal(False)) for k in fields}
+    names = {'repetitions': 'is_repetition_converted', 'capture': 'is_capturing_group_enabled',
+             'no_start_anchor': 'is_start_anchor_disabled', 'no_end_anchor': 'is_end_anchor_disabled'}
+    for k, val in settings.items():
+        if k not in names:
+            raise Inconclusive('setting %s is not supported by Q08s' % k)
+        off[names[k]] = z3.BoolVal(bool(val))
+    if not (settings.get('no_start_anchor') or settings.get('no_end_anchor')):
+        raise Inconclusive('Q08s is about disabled anchors')
+    cfgv = config_value(ctx, off)
+    ex = ctx.new_exec([(P(r'^<str as UnicodeSegmentation>::graphemes$'), m_graphemes_per_letter)] + make_regex_search_models(ctx) +
+                      make_gc_models(ctx) + make_regex_models(ctx, lambda x: orbit_rep(ctx, x)))
+    st = State(pc=list(assume))
+    cfg = st.ref(cfgv)
+    v = st.ref(ListV([SymStr(c) for c in cases]))
+    f_from = ctx.mir.one_fn(r'^regexp::<impl at [^>]*>::from$')
+    f_fmt = display_fmt_name(ctx, 'RegExp')
+    t0 = time.time()
+    bads = []
+    npaths = 0
+    for o in ex.run_fn(st, f_from, [v, cfg]):
+        if o.panic:
+            bads.append(z3.And(*o.st.pc))
+            ob.classes_seen['panic'] = ob.classes_seen.get('panic', 0) + 1
+            continue
+        buf = o.st.ref(SymStr(()))
+        for o2 in ex.run_fn(o.st, f_fmt, [o.st.ref(o.val), buf]):
+            npaths += 1
+            if o2.panic:
+                bads.append(z3.And(*o2.st.pc))
+                continue
+            items = list(o2.st.load(buf).items)
+            cls = re.sub(r'<[^>]*>', 'x', ''.join(chr(concrete(x)) if concrete(x) is not None else 'x' for x in items))
+            ob.classes_seen[cls] = ob.classes_seen.get(cls, 0) + 1
+            words, sa, ea = pattern_words(ex, o2.st, items, ctx.oracle)
+            if sa != (not settings.get('no_start_anchor')) or ea != (not settings.get('no_end_anchor')):
+                bads.append(z3.And(*o2.st.pc))
+                continue
+            full = [RS.search_is_full(words, c, ctx.oracle, sa, ea) for c in cases]
+            bads.append(z3.And(*o2.st.pc, z3.Not(z3.And(*full))))
+    ctx.finish(ob, ex, t0)
+    ob.paths = npaths
+    if len(ob.classes_seen) > 40:
+        ob.classes_seen = dict(sorted(ob.classes_seen.items(), key=lambda kv: -kv[1])[:40])
+
+    def blocker(m):
+        vals = [m.eval(c, model_completion=True).as_long() for c in allv]
+        parts = []
+        for i in range(len(allv)):
+            for j in range(i + 1, len(allv)):
+                parts.append((allv[i] == allv[j]) if vals[i] == vals[j] else (allv[i] != allv[j]))
+        return z3.Not(z3.And(*parts)) if parts else z3.BoolVal(False)
+    ob.verdict = decide(ob.qid, assume + ob.defs, z3.Or(*bads) if bads else z3.BoolVal(False), allv, all_sat=True,
+                        max_models=ctx.cap('Q08s'), second=ctx.second, workdir=ctx.workdir,
+                        second_timeout_s=getattr(ctx, 'second_timeout', 60), blocker=blocker)
+    return ob
+
+
+# =========================================================================== Q08u  the self-check block of RegExp::from as a unit
+def skel_words(sk):
+    """number-of-letters words of a skeleton as lists of leaf indices; leaves are numbered left to right"""
+    counter = [0]
+
+    def go(n):
+        k = n[0]
+        if k == 'L':
+            ids = list(range(counter[0], counter[0] + n[1]))
+            counter[0] += n[1]
+            return [ids]
+        if k == 'C':
+            a = go(n[1])
+            b = go(n[2])
+            return [x + y for x in a for y in b]
+        if k == 'A':
+            out = []
+            for c in n[1]:
+                out += go(c)
+            return out
+        if k == 'O':
+            return go(n[1]) + [[]]
+        raise ValueError(k)
+    return go(sk), counter[0]
+
+
+def skel_text(sk):
+    k = sk[0]
+    if k == 'L':
+        return 'x' * sk[1]
+    if k == 'C':
+        return ''.join(('(%s)' % skel_text(c)) if c[0] == 'A' else skel_text(c) for c in sk[1:3])
+    if k == 'A':
+        return '|'.join(skel_text(c) for c in sk[1])
+    return '(%s)?' % skel_text(sk[1])
+
+
+def skeleton_family(max_letters, max_words=4, max_len=3):
+    """every expression skeleton (literal runs, binary concatenation, flat alternation, optional) with at most max_letters letter
+    leaves whose language has at most max_words words of at most max_len letters and no empty word"""
+    memo = {}
+
+    def gen(n, top):
+        key = (n, top)
+        if key in memo:
+            return memo[key]
+        out = []
+        if n >= 1:
+            out.append(('L', n))
+        for i in range(1, n):
+            for a in gen(i, False):
+                for b in gen(n - i, False):
+                    if a[0] == 'L' and b[0] == 'L':
+                        continue          # adjacent literals are one literal
+                    if a[0] == 'C':
+                        continue          # concatenations are right-nested
+                    out.append(('C', a, b))
+        # alternations of 2..3 branches (flat, no nested alternation directly inside)
+        def parts(n, k, lo):
+            if k == 1:
+                if n >= lo:
+                    yield (n,)
+                return
+            for i in range(lo, n):
+                for rest in parts(n - i, k - 1, 1):
+                    yield (i,) + rest
+        for k in (2, 3):
+            for ps in parts(n, k, 1):
+                choices = [[x for x in gen(p_, False) if x[0] != 'A'] for p_ in ps]
+                def prod(i):
+                    if i == len(choices):
+                        yield []
+                        return
+                    for c in choices[i]:
+                        for rest in prod(i + 1):
+                            yield [c] + rest
+                for combo in prod(0):
+                    out.append(('A', combo))
+        memo[key] = out
+        return out
+
+    # optional sub-expressions: wrap any proper sub-term (not the whole expression, which would admit the empty word)
+    def opt_variants(sk, is_root):
+        k = sk[0]
+        vs = []
+        if k == 'L':
+            vs = [sk]
+        elif k == 'C':
+            vs = [('C', a, b) for a in opt_variants(sk[1], False) for b in opt_variants(sk[2], False)]
+        elif k == 'A':
+            combos = [[]]
+            for c in sk[1]:
+                combos = [x + [y] for x in combos for y in opt_variants(c, True)]     # an optional branch = an empty alternative: excluded
+            vs = [('A', c) for c in combos]
+        if not is_root:
+            vs = vs + [('O', v) for v in vs]
+        return vs
+    fam, seen = [], set()
+    for n in range(1, max_letters + 1):
+        for sk in gen(n, True):
+            for v in opt_variants(sk, True):
+                ws, _ = skel_words(v)
+                if len(ws) > max_words or any(len(w) == 0 or len(w) > max_len for w in ws):
+                    continue
+                t = repr(v)
+                if t not in seen:
+                    seen.add(t)
+                    fam.append(v)
+    return fam
+
+
+@guarded
+def q08u(ctx, skeleton, settings=None, second_ast='same'):
+    """Q08u: the self-check block of RegExp::from as a unit: whatever expression the automaton stages hand over (any expression of the given shape whose language is the set of test cases), a leftmost-first search of every test case with the printed pattern returns the whole test case"""
+    settings = dict(settings or {})
+    stag = ''.join('[%s]' % k for k in sorted(settings) if settings[k])
+    ob = Obligation('Q08u[%s]%s%s' % (skel_text(skeleton), stag, '' if second_ast == 'same' else '[2nd=%s]' % second_ast), q08u.__doc__)
+    words_ix, nleaf = skel_words(skeleton)
+    ob.domain = ('Dfa::from / Expression::from are replaced by stubs that return an expression of shape %s over %d letters a..z (every equality '
+                 'pattern; built with the real constructors new_literal / new_concatenation / new_alternation / new_repetition); the test cases '
+                 'are its %d words; settings: %s. Executed from MIR: the rest of RegExp::from (sorting, clustering, convert_expr_to_regex, '
+                 'regex_matches_all_test_cases, rotation, both fall-backs) and Display for RegExp' % (
+                     skel_text(skeleton), nleaf, len(words_ix), ', '.join(k for k in sorted(settings) if settings[k])))
+    ob.bound = 'this expression shape'
+    letters = [z3.BitVec('x%d' % i, 32) for i in range(nleaf)]
+    assume = [z3.And(z3.UGE(v, BV(0x61, 32)), z3.ULE(v, BV(0x7A, 32))) for v in letters]
+    cases = [[letters[i] for i in w] for w in words_ix]
+    fields = ctx.mir.structs.get('RegExpConfig')
+    off = {k: (BV(1, 32) if k.startswith('minimum_') else z3.BoolVal(False)) for k in fields}
+    names = {'capture': 'is_capturing_group_enabled', 'no_start_anchor': 'is_start_anchor_disabled', 'no_end_anchor': 'is_end_anchor_disabled'}
+    for k, val in settings.items():
+        if k not in names:
+            raise Inconclusive('setting %s is not supported by Q08u' % k)
+        off[names[k]] = z3.BoolVal(bool(val))
+    cfgv = config_value(ctx, off)
+    f_lit = ctx.mir.one_fn(r'^expression::<impl at [^>]*>::new_literal$')
+    f_cat = ctx.mir.one_fn(r'^expression::<impl at [^>]*>::new_concatenation$')
+    f_alt = ctx.mir.one_fn(r'^expression::<impl at [^>]*>::new_alternation$')
+    f_rep = ctx.mir.one_fn(r'^expression::<impl at [^>]*>::new_repetition$')
+    f_clu = ctx.mir.one_fn(r'^cluster::<impl at [^>]*>::from$')
+    qvars = ctx.mir.enums.get('Quantifier')
+    if not qvars or 'QuestionMark' not in qvars:
+        raise Inconclusive('Quantifier enum changed: %s' % (qvars,))
+    calls = {'n': 0}
+    asts = {}
+
+    def m_dfa_from(ex, st, fr, callee, a, depth):
+        return Opaque('dfa', concrete(a[1]))
+
+    def m_expr_from(ex, st, fr, callee, a, depth):
+        calls['n'] += 1
+        d = a[0]
+        if not isinstance(d, Opaque) or d.tag != 'dfa':
+            raise Inconclusive('Expression::from on %r' % (d,))
+        return asts['min'] if d.p[0] else asts['trie']
+    ex = ctx.new_exec([(P(r'^<str as UnicodeSegmentation>::graphemes$'), m_graphemes_per_letter),
+                       (P(r'^Dfa::<\'_>::from$|^dfa::<impl at [^>]*>::from$'), m_dfa_from),
+                       (P(r'^Expression::<\'_>::from$|^expression::<impl at [^>]*>::from$'), m_expr_from)] + make_regex_search_models(ctx) +
+                      make_gc_models(ctx) + make_regex_models(ctx, lambda x: orbit_rep(ctx, x)))
+    st0 = State(pc=list(assume))
+    cfg = st0.ref(cfgv)
+
+    def one(outs, what):
+        outs = [o for o in outs if not o.panic]
+        if len(outs) != 1:
+            raise Inconclusive('%s: %d outcomes while building the expression' % (what, len(outs)))
+        return outs[0].st, outs[0].val
+
+    def build(st, sk, pos):
+        k = sk[0]
+        if k == 'L':
+            s_ = st.ref(SymStr(letters[pos[0]:pos[0] + sk[1]]))
+            pos[0] += sk[1]
+            st, cl = one(ex.run_fn(st, f_clu, [s_, cfg]), 'GraphemeCluster::from')
+            return one(ex.run_fn(st, f_lit, [cl, cfg]), 'new_literal')
+        if k == 'C':
+            st, a = build(st, sk[1], pos)
+            st, b = build(st, sk[2], pos)
+            return one(ex.run_fn(st, f_cat, [a, b, cfg]), 'new_concatenation')
+        if k == 'A':
+            vs = []
+            for c in sk[1]:
+                st, v_ = build(st, c, pos)
+                vs.append(v_)
+            return one(ex.run_fn(st, f_alt, [ListV(vs), cfg]), 'new_alternation')
+        if k == 'O':
+            st, a = build(st, sk[1], pos)
+            return one(ex.run_fn(st, f_rep, [a, EnumV('Quantifier', 'QuestionMark', qvars.index('QuestionMark'), ()), cfg]), 'new_repetition')
+        raise Inconclusive('skeleton node %r' % (k,))
+    t0 = time.time()
+    st, ast_min = build(st0, skeleton, [0])
+    if second_ast == 'same':
+        st, ast_trie = build(st, skeleton, [0])
+    elif second_ast == 'literals':
+        vs = []
+        for w in cases:
+            s_ = st.ref(SymStr(w))
+            st, cl = one(ex.run_fn(st, f_clu, [s_, cfg]), 'GraphemeCluster::from')
+            st, l_ = one(ex.run_fn(st, f_lit, [cl, cfg]), 'new_literal')
+            vs.append(l_)
+        if len(vs) == 1:
+            ast_trie = vs[0]
+        else:
+            st, ast_trie = one(ex.run_fn(st, f_alt, [ListV(vs), cfg]), 'new_alternation')
+    else:
+        raise Inconclusive('second_ast ' + second_ast)
+    asts['min'], asts['trie'] = ast_min, ast_trie
+    # the handed-over expression must denote the test cases (that is the contract of the automaton stages, C16)
+    lang = expression_language(st, ast_min)
+    if not all(any(len(a_) == len(b_) and all(x.eq(y) for x, y in zip(a_, b_)) for b_ in cases) for a_ in lang) or len(lang) != len(cases):
+        raise Inconclusive('the expression built for the skeleton does not denote its words')
+    v = st.ref(ListV([SymStr(c) for c in cases]))
+    f_from = ctx.mir.one_fn(r'^regexp::<impl at [^>]*>::from$')
+    f_fmt = display_fmt_name(ctx, 'RegExp')
+    bads = []
+    npaths = 0
+    for o in ex.run_fn(st, f_from, [v, cfg]):
+        if o.panic:
+            bads.append(z3.And(*o.st.pc))
+            ob.classes_seen['panic'] = ob.classes_seen.get('panic', 0) + 1
+            continue
+        buf = o.st.ref(SymStr(()))
+        for o2 in ex.run_fn(o.st, f_fmt, [o.st.ref(o.val), buf]):
+            npaths += 1
+            if o2.panic:
+                bads.append(z3.And(*o2.st.pc))
+                continue
+            items = list(o2.st.load(buf).items)
+            cls = re.sub(r'<[^>]*>', 'x', ''.join(chr(concrete(x)) if concrete(x) is not None else 'x' for x in items))
+            ob.classes_seen[cls] = ob.classes_seen.get(cls, 0) + 1
+            words, sa, ea = pattern_words(ex, o2.st, items, ctx.oracle)
+            if sa != (not settings.get('no_start_anchor')) or ea != (not settings.get('no_end_anchor')):
+                bads.append(z3.And(*o2.st.pc))
+                continue
+            full = [RS.search_is_full(words, c, ctx.oracle, sa, ea) for c in cases]
+            bads.append(z3.And(*o2.st.pc, z3.Not(z3.And(*full))))
+    ctx.finish(ob, ex, t0)
+    ob.paths = npaths
+    ob.extra['expression_from_calls'] = calls['n']
+    ob.extra['test_case_lengths'] = [len(w) for w in cases]
+    if len(ob.classes_seen) > 40:
+        ob.classes_seen = dict(sorted(ob.classes_seen.items(), key=lambda kv: -kv[1])[:40])
+
+    def blocker(m):
+        vals = [m.eval(c, model_completion=True).as_long() for c in letters]
+        parts = []
+        for i in range(len(letters)):
+            for j in range(i + 1, len(letters)):
+                parts.append((letters[i] == letters[j]) if vals[i] == vals[j] else (letters[i] != letters[j]))
+        return z3.Not(z3.And(*parts)) if parts else z3.BoolVal(False)
+    ob.verdict = decide(ob.qid, assume + ob.defs, z3.Or(*bads) if bads else z3.BoolVal(False), letters, all_sat=True,
+                        max_models=ctx.cap('Q08u') + 1000, second=ctx.second, workdir=ctx.workdir,
+                        second_timeout_s=getattr(ctx, 'second_timeout', 60), blocker=blocker)
+    ob.extra['cases_ix'] = words_ix
+    return ob
+
+
+# =========================================================================== Q03t  end to end with shorthand-class conversion
+def spec_position_match(ctx, c, x, flags):
+    """does x stand where test-case character c stood, under the documented conversion precedence (flags: six concrete Booleans
+    in the order digit, word, space, non-digit, non-word, non-space)"""
+    D = lambda v: in_ranges(v, ctx.oracle['d'])
+    W = lambda v: in_ranges(v, ctx.oracle['w'])
+    S = lambda v: in_ranges(v, ctx.oracle['s'])
+    t = x == c
+    rungs = [(flags[5], lambda v: z3.Not(S(v))), (flags[4], lambda v: z3.Not(W(v))), (flags[3], lambda v: z3.Not(D(v))),
+             (flags[2], S), (flags[1], W), (flags[0], D)]
+    for on, cls in rungs:          # built inside out: the first applicable rung in documented order wins
+        if on:
+            t = z3.If(cls(c), cls(x), t)
+    return t
+
+
+@guarded
+def q03t(ctx, lens=(2,), flagset=('digits',), domain='printable'):
+    """Q03t: the whole of build() with shorthand-class conversion: the printed pattern accepts exactly the strings obtained from a test case by replacing each character with any member of the class it is documented to be converted to"""
+    order = ['digits', 'words', 'spaces', 'non_digits', 'non_words', 'non_spaces']
+    flags = [k in flagset for k in order]
+    ob = Obligation('Q03t[%s][%s]%s' % (','.join(map(str, lens)), ','.join(k for k in order if k in flagset), '' if domain == 'printable' else '[%s]' % domain),
+                    q03t.__doc__)
+    dom_txt = {'printable': 'printable ASCII characters (U+0020..U+007E: digits, letters, blanks, punctuation, every regex metacharacter)',
+               'alnum': 'characters from 0-9, a-z, the blank and the underscore'}[domain]
+    ob.domain = ('%d test cases of %s %s, conversions: %s; the candidate string x ranges over ALL scalar values at every position' % (
+        len(lens), '/'.join(map(str, lens)), dom_txt, ', '.join(k for k in order if k in flagset)))
+    ob.bound = 'exactly these lengths'
+    cases = [[z3.BitVec('s%d_%d' % (i, j), 32) for j in range(n)] for i, n in enumerate(lens)]
+    allv = [v for c in cases for v in c]
+    if domain == 'printable':
+        assume = [z3.And(z3.UGE(v, BV(0x20, 32)), z3.ULE(v, BV(0x7E, 32))) for v in allv]
+    else:
+        assume = [z3.And(z3.UGE(v, BV(0x20, 32)), z3.ULE(v, BV(0x7A, 32))) for v in allv]
+        assume += [z3.Or(v == BV(0x20, 32), v == BV(0x5F, 32), z3.And(z3.UGE(v, BV(0x30, 32)), z3.ULE(v, BV(0x39, 32))),
+                         z3.And(z3.UGE(v, BV(0x61, 32)), z3.ULE(v, BV(0x7A, 32)))) for v in allv]
+    fields = ctx.mir.structs.get('RegExpConfig')
+    off = {k: (BV(1, 32) if k.startswith('minimum_') else z3.BoolVal(False)) for k in fields}
+    for nm, on in zip(FLAG_NAMES, flags):
+        off[nm] = z3.BoolVal(on)
+    cfgv = config_value(ctx, off)
+    ex = ctx.new_exec([(P(r'^<str as UnicodeSegmentation>::graphemes$'), m_graphemes_per_letter)] + make_gc_models(ctx))
+    st = State(pc=list(assume))
+    cfg = st.ref(cfgv)
+    v = st.ref(ListV([SymStr(c) for c in cases]))
+    f_from = ctx.mir.one_fn(r'^regexp::<impl at [^>]*>::from$')
+    f_fmt = display_fmt_name(ctx, 'RegExp')
+    t0 = time.time()
+    maxlen = max(lens)
+    xs = [z3.BitVec('x%d' % i, 32) for i in range(maxlen + 2)]
+    xlen = z3.BitVec('xlen', 32)
+    bads = []
+    npaths = 0
+    for o in ex.run_fn(st, f_from, [v, cfg]):
+        if o.panic:
+            bads.append(z3.And(*o.st.pc))
+            ob.classes_seen['panic'] = ob.classes_seen.get('panic', 0) + 1
+            continue
+        buf = o.st.ref(SymStr(()))
+        for o2 in ex.run_fn(o.st, f_fmt, [o.st.ref(o.val), buf]):
+            npaths += 1
+            if o2.panic:
+                bads.append(z3.And(*o2.st.pc))
+                continue
+            items = list(o2.st.load(buf).items)
+            cls = re.sub(r'<[^>]*>', 'x', ''.join(chr(concrete(x)) if concrete(x) is not None else 'x' for x in items))
+            ob.classes_seen[cls] = ob.classes_seen.get(cls, 0) + 1
+            words, sa, ea = pattern_words(ex, o2.st, items, ctx.oracle)
+            if not (sa and ea):
+                bads.append(z3.And(*o2.st.pc))
+                continue
+            diffs = []
+            for L in sorted(set(len(w) for w in words) | set(lens)):
+                if L > len(xs):
+                    raise Inconclusive('pattern word longer than the candidate string')
+                x = xs[:L]
+                inP = z3.Or(*[RS.word_match(w, x, 0, ctx.oracle) for w in words if len(w) == L]) if any(len(w) == L for w in words) else z3.BoolVal(False)
+                inS = [z3.And(*[spec_position_match(ctx, c, xc, flags) for c, xc in zip(t_, x)]) for t_ in cases if len(t_) == L]
+                inS = z3.Or(*inS) if inS else z3.BoolVal(False)
+                diffs.append(z3.And(xlen == BV(L, 32), z3.Xor(inP, inS)))
+            bads.append(z3.And(*o2.st.pc, z3.Or(*diffs)))
+    ctx.finish(ob, ex, t0)
+    ob.paths = npaths
+    if len(ob.classes_seen) > 40:
+        ob.classes_seen = dict(sorted(ob.classes_seen.items(), key=lambda kv: -kv[1])[:40])
+    ob.verdict = decide(ob.qid, assume + [valid_char(x) for x in xs] + ob.defs, z3.Or(*bads) if bads else z3.BoolVal(False), allv + xs + [xlen],
+                        all_sat=True, max_models=ctx.cap('Q03t'), workdir=ctx.workdir,
+                        second=tuple(x for x in ctx.second if not (getattr(ctx, 'tier', 'quick') == 'quick' and x.startswith('cvc5'))),
+                        second_timeout_s=getattr(ctx, 'second_timeout', 60), block_vars=allv)
+    ob.extra['flags'] = flags
     return ob
 
 
@@ -2863,12 +3421,10 @@ def q15t(ctx, lens=(2, 1), settings=None):
     fields = ctx.mir.structs.get('RegExpConfig')
     names = {'repetitions': 'is_repetition_converted', 'verbose': 'is_verbose_mode_enabled', 'capture': 'is_capturing_group_enabled',
              'no_start_anchor': 'is_start_anchor_disabled', 'no_end_anchor': 'is_end_anchor_disabled', 'ignore_case': 'is_case_insensitive_matching'}
-    if settings.get('no_start_anchor') and settings.get('no_end_anchor'):
-        raise Inconclusive('both anchors disabled: RegExp::from then compiles the candidate with the regex engine (not modelled)')
     texts = {}
     ex = ctx.new_exec([(P(r'^<str as UnicodeSegmentation>::graphemes$'), m_graphemes_per_letter),
-                       (P(r'impl str>::to_lowercase$'), m_to_lowercase_identity_on_lowercase_letters)] + make_gc_models(ctx) +
-                      make_regex_models(ctx, lambda x: orbit_rep(ctx, x)))
+                       (P(r'impl str>::to_lowercase$'), m_to_lowercase_identity_on_lowercase_letters)] + make_regex_search_models(ctx) +
+                      make_gc_models(ctx) + make_regex_models(ctx, lambda x: orbit_rep(ctx, x)))
     f_from = ctx.mir.one_fn(r'^regexp::<impl at [^>]*>::from$')
     f_fmt = display_fmt_name(ctx, 'RegExp')
     t0 = time.time()
